@@ -468,8 +468,11 @@ class Interp:
         ctor = self.prog.by_key.get(ctor_key) if ctor_key else None
         if ctor is None and ctor_key is None:
             # default construction
-            cands = [f for f in self.prog.all_functions() if f.cls == cls and f.kind == "ctor" and not f.params]
-            ctor = cands[0] if cands else None
+            cache = self.prog.__dict__.setdefault("_default_ctor_cache", {})
+            if cls not in cache:
+                cands = [f for f in self.prog.all_functions() if f.cls == cls and f.kind == "ctor" and not f.params]
+                cache[cls] = cands[0] if cands else None
+            ctor = cache[cls]
         if ctor is None or ctor.body is None:
             if node is not None and node.get("copy") and arg_nodes:
                 return copy.deepcopy(self.ev(arg_nodes[0], env))
@@ -1311,10 +1314,16 @@ class Interp:
             name = fn.name
             cls = obj.cls
             seen = set()
+            idx = self.prog.__dict__.get("_cls_name_index")
+            if idx is None:
+                idx = {}
+                for f in self.prog.all_functions():
+                    idx.setdefault((f.cls, f.name), []).append(f)
+                self.prog.__dict__["_cls_name_index"] = idx
             while cls and cls not in seen:
                 seen.add(cls)
-                for f in self.prog.all_functions():
-                    if f.cls == cls and f.name == name and len(f.params) == len(fn.params):
+                for f in idx.get((cls, name), ()):
+                    if len(f.params) == len(fn.params):
                         return f
                 r = self.prog.records.get(cls)
                 cls = r["bases"][0] if r and r.get("bases") else None
@@ -1370,6 +1379,18 @@ class Interp:
                 return None
             if meth == "reserve":
                 return None
+            if meth == "erase" and args:
+                a = [self.ev(x, env) for x in args]
+                if all(isinstance(x, Iter) and x.v is recv for x in a):
+                    lo = a[0].i
+                    hi = a[1].i if len(a) > 1 else lo + 1
+                    del recv.items[lo:hi]
+                    return Iter(recv, lo)
+            if meth == "insert" and len(args) == 3:
+                a = [self.ev(x, env) for x in args]
+                if all(isinstance(x, Iter) for x in a) and a[0].v is recv and a[1].v is a[2].v:
+                    recv.items[a[0].i:a[0].i] = [vcopy(x, recv.elem or "") for x in a[1].v.items[a[1].i:a[2].i]]
+                    return Iter(recv, a[0].i)
             if meth in ("begin", "cbegin"):
                 return Iter(recv, 0)
             if meth in ("end", "cend"):
@@ -1402,6 +1423,23 @@ class Interp:
             if meth == "empty":
                 return not recv.d
         if isinstance(recv, SetVal):
+            if meth == "clear":
+                recv.items.clear()
+                return None
+            if meth in ("count", "insert") and args:
+                v = self.ev(args[0], env)
+                if isinstance(v, Obj):
+                    # record elements: equivalence is defined by the class's own operator<
+                    lt = [f for f in self.prog.fns(v.cls + "::operator<")] if hasattr(self.prog, "fns") else []
+                    if not lt:
+                        raise Unsupported("std::set of %s without operator<" % v.cls)
+                    same = [e for e in recv.items
+                            if not self.call(lt[0], v, None, None, arg_values=[e]) and not self.call(lt[0], e, None, None, arg_values=[v])]
+                    if meth == "count":
+                        return 1 if same else 0
+                    if not same:
+                        recv.items.add(v)
+                    return None
             if meth == "count":
                 return 1 if self.ev(args[0], env) in recv.items else 0
             if meth == "insert":
@@ -1562,6 +1600,21 @@ class Interp:
             return o
         if nm in ("printf", "fprintf", "err_printf", "db_printf", "fflush"):
             return 0
+        if nm in ("sort", "stable_sort", "unique") and len(args) == 2:
+            b, e = self.ev(args[0], env), self.ev(args[1], env)
+            if isinstance(b, Iter) and isinstance(e, Iter) and b.v is e.v and isinstance(b.v, Vec):
+                seg = b.v.items[b.i:e.i]
+                if nm == "unique":
+                    out = []
+                    for x in seg:
+                        if not out or not self.compare(out[-1], "==", x):
+                            out.append(x)
+                    b.v.items[b.i:e.i] = out + seg[len(out):]
+                    return Iter(b.v, b.i + len(out))
+                import functools
+                seg.sort(key=functools.cmp_to_key(lambda x, y: -1 if self.compare(x, "<", y) else (1 if self.compare(y, "<", x) else 0)))
+                b.v.items[b.i:e.i] = seg
+                return None
         raise Unsupported("std/C function %s" % cname)
 
 
